@@ -9,7 +9,7 @@ gvars == <<vars, hist>>
 GInit == Init /\ hist = <<>>
 Step(A, name) == A /\ hist' = Append(hist, name)
 GNext ==
-  \/ Step(Deliver, "Deliver") \/ Step(RTop, "RTop") \/ Step(RRead, "RRead") \/ Step(RHand, "RHand") \/ Step(RLock, "RLock")
+  \/ Step(Deliver, "Deliver") \/ Step(RTop, "RTop") \/ Step(RPeek, "RPeek") \/ Step(RRead, "RRead") \/ Step(RHand, "RHand") \/ Step(RLock, "RLock")
   \/ Step(RSent, "RSent") \/ Step(RExit, "RExit") \/ Step(RClose, "RClose")
   \/ \E k \in 1..MaxLen :
        \/ Step(TFire(k), "TFire:" \o ToString(k)) \/ Step(TSend(k), "TSend:" \o ToString(k))
